@@ -159,10 +159,15 @@ fn replay_fl<F: Fl>(opts: &HashMap<String, String>) -> Value {
                 let exp_ex = hist_edges(hist, exp_len);
                 if repeat {
                     // a pure traversal examines the same edges both times
+                    // (compare the two observed halves with EACH OTHER, not with the model: a different but
+                    // legitimate examination order must stay a drift, not become a failure)
                     if let Some(e) = obs.examined.take() {
-                        let twice: Vec<Triple> = exp_ex.iter().chain(exp_ex.iter()).cloned().collect();
-                        obs.examined = if e == twice { Some(exp_ex.clone()) } else { None };
-                        if obs.examined.is_none() && obs.res == exp_res { obs.res = json!({"unsupported": "second use of the same builder examined different edges"}); }
+                        let h = e.len() / 2;
+                        if e.len() % 2 == 0 && e[..h] == e[h..] {
+                            obs.examined = Some(e[..h].to_vec());
+                        } else {
+                            obs.res = json!({"unsupported": "second use of the same builder examined different edges"});
+                        }
                     }
                 }
                 let ok = obs.res == exp_res && obs.examined.as_ref().map(|e| *e == exp_ex).unwrap_or(true);
